@@ -267,17 +267,23 @@ Section Interp.
          do second_last <- of_option (nth_error s index);
          Ok (with_stack st (push_bytes s second_last)).
 
+  (* usize::try_from(BigInt) *)
+  Definition usize_try_from (z : Z) : outcome nat :=
+    if (z <? 0) || (18446744073709551615 <? z) then Err else Ok (Z.to_nat z).
+
   Definition op_pick (st : state) : outcome state :=
-    do x <- pop_number (stack st); let '(index, s) := x in
+    do x <- pop_bigint (stack st); let '(index, s) := x in
     if (index <? 0) || (Z.of_nat (length s) <=? index) then Err
-    else do l1 <- usub (length s) 1; do i <- usub l1 (Z.to_nat index);
+    else do index' <- usize_try_from index;
+         do l1 <- usub (length s) 1; do i <- usub l1 index';
          do selected <- of_option (nth_error s i);
          Ok (with_stack st (push_bytes s selected)).
 
   Definition op_roll (st : state) : outcome state :=
-    do x <- pop_number (stack st); let '(index, s) := x in
+    do x <- pop_bigint (stack st); let '(index, s) := x in
     if (index <? 0) || (Z.of_nat (length s) <=? index) then Err
-    else do l1 <- usub (length s) 1; do i <- usub l1 (Z.to_nat index);
+    else do index' <- usize_try_from index;
+         do l1 <- usub (length s) 1; do i <- usub l1 index';
          do y <- vremove i s; let '(selected, s') := y in
          Ok (with_stack st (push_bytes s' selected)).
 
@@ -354,12 +360,13 @@ Section Interp.
     Ok (with_stack st (push_bytes s2 (x1 ++ x2))).
 
   Definition op_split (st : state) : outcome state :=
-    do a <- pop_number (stack st); let '(n, s1) := a in
+    do a <- pop_bigint (stack st); let '(n, s1) := a in
     do b <- pop_bytes s1; let '(x, s2) := b in
     if (n <? 0) || (Z.of_nat (length x) <? n) then Err
-    else (* x.split_at(n as usize) panics when n > x.len() *)
-      if Nat.leb (Z.to_nat n) (length x)
-      then Ok (with_stack st (push_bytes (push_bytes s2 (firstn (Z.to_nat n) x)) (skipn (Z.to_nat n) x)))
+    else do n' <- usize_try_from n;
+      (* x.split_at(n) panics when n > x.len() *)
+      if Nat.leb n' (length x)
+      then Ok (with_stack st (push_bytes (push_bytes s2 (firstn n' x)) (skipn n' x)))
       else Panic.
 
   Definition op_size (st : state) : outcome state :=
@@ -545,10 +552,7 @@ Section Interp.
     | 93%N => op_push_number 13 st | 94%N => op_push_number 14 st | 95%N => op_push_number 15 st
     | 96%N => op_push_number 16 st
     | 97%N (* OP_NOP *) => op_nop st
-    | 99%N (* OP_IF *) => op_nop st
-    | 100%N (* OP_NOTIF *) => op_nop st
-    | 103%N (* OP_ELSE *) => op_nop st
-    | 104%N (* OP_ENDIF *) => op_nop st
+    | 99%N | 100%N | 103%N | 104%N (* OP_IF | OP_NOTIF | OP_ELSE | OP_ENDIF outside a parsed If *) => Err
     | 105%N (* OP_VERIFY *) => op_verify st
     | 106%N (* OP_RETURN *) => op_return st
     | 107%N (* OP_TOALTSTACK *) => op_toaltstack st
